@@ -339,6 +339,15 @@ fn faults(s: &mut Sink, r: &mut Rng, devs: &[u32], m: &Msg, rel: bool) {
             }
         }
     }
+    // every single bit of the id of one chunk flipped (ids aliasing modulo 2^k must not be accepted)
+    for &i in &[0usize, n / 2, n - 1] {
+        for k in 0..16 {
+            let mut f = m.clone();
+            f.chunks[i].id ^= 1 << k;
+            let o = f.natural();
+            emit(s, "fault-id-bit", &f.line(&o));
+        }
+    }
     // ids shifted by one (no id 0), end-of-message on every chunk / on none
     let mut f = m.clone();
     for c in f.chunks.iter_mut() {
